@@ -283,3 +283,57 @@ func TestTiming(t *testing.T) {
 		fmt.Printf("world %d: %v decisions=%d\n", recs[i].idx, recs[i].d, recs[i].dec)
 	}
 }
+
+// CLIRecord is one in-process run of the tool, for comparison with the real binary (R7 validation).
+type CLIRecord struct {
+	Index  int      `json:"index"`
+	Argv   []string `json:"argv"`
+	Path   string   `json:"path"`
+	Data   string   `json:"data"`
+	Stdout string   `json:"stdout"`
+	Exit   int      `json:"exit"`
+}
+
+func TestCLIX(t *testing.T) {
+	if *fMode != "clix" {
+		t.Skip()
+	}
+	var recs []CLIRecord
+	for idx := *fFrom; idx < *fTo && len(recs) < 60; idx++ {
+		w := gen.World("C19", *fSeed, idx, *fTier)
+		ts := w.Tasks[0]
+		if len(w.Knobs) > 0 || len(w.Restarts) > 0 || w.Sched.TickProb > 0 || len(ts.Files) != 1 {
+			continue
+		}
+		f := ts.Files[0]
+		if f.OpenErr != "" || f.ReadErr != 0 {
+			continue
+		}
+		verbose := false
+		for _, a := range ts.Argv {
+			if a == "-verbose" {
+				verbose = true // prints the 3-second statistics table: timing dependent in the real binary
+			}
+		}
+		if verbose {
+			continue
+		}
+		res := Run(t, w, false)
+		if res.Tool != "" || len(res.Outcomes) != 1 || res.Outcomes[0] == nil {
+			continue
+		}
+		code := 0
+		fmt.Sscanf(res.Outcomes[0].Summary, "cli:exit%d", &code)
+		for _, v := range res.Viol {
+			if len(v.Clause) >= 5 && v.Clause[:5] == "panic" {
+				code = -1
+			}
+		}
+		if code < 0 {
+			continue
+		}
+		recs = append(recs, CLIRecord{Index: idx, Argv: ts.Argv, Path: f.Path, Data: f.Data, Stdout: res.Outcomes[0].Info, Exit: code})
+	}
+	b, _ := json.Marshal(recs)
+	os.WriteFile(*fOut, b, 0o644)
+}
